@@ -875,12 +875,17 @@ func (em *emitter) emitBuiltin(call *ast.Call, reg int8, dstType reflect.Type) {
 			}
 			em.fb.exitStack()
 		} else {
-			for _, argExpr := range args {
-				em.fb.enterStack()
-				arg := em.emitExpr(argExpr, emptyInterfaceType)
-				em.fb.emitPrint(arg)
-				em.fb.exitStack()
+			// As for any call, all the arguments are evaluated before
+			// anything is printed.
+			em.fb.enterStack()
+			argRegs := make([]int8, len(args))
+			for i, argExpr := range args {
+				argRegs[i] = em.emitExpr(argExpr, emptyInterfaceType)
 			}
+			for _, arg := range argRegs {
+				em.fb.emitPrint(arg)
+			}
+			em.fb.exitStack()
 		}
 	case "println":
 		if em.isSpecialCall(args) {
@@ -905,7 +910,14 @@ func (em *emitter) emitBuiltin(call *ast.Call, reg int8, dstType reflect.Type) {
 			}
 			em.fb.exitStack()
 		} else {
+			// As for any call, all the arguments are evaluated before
+			// anything is printed.
+			em.fb.enterStack()
+			argRegs := make([]int8, len(args))
 			for i, argExpr := range args {
+				argRegs[i] = em.emitExpr(argExpr, emptyInterfaceType)
+			}
+			for i, arg := range argRegs {
 				if i > 0 {
 					em.fb.enterStack()
 					str := em.fb.makeStringValue(" ")
@@ -914,11 +926,9 @@ func (em *emitter) emitBuiltin(call *ast.Call, reg int8, dstType reflect.Type) {
 					em.fb.emitPrint(sep)
 					em.fb.exitStack()
 				}
-				em.fb.enterStack()
-				arg := em.emitExpr(argExpr, emptyInterfaceType)
 				em.fb.emitPrint(arg)
-				em.fb.exitStack()
 			}
+			em.fb.exitStack()
 		}
 		em.fb.enterStack()
 		str := em.fb.makeStringValue("\n")
